@@ -352,6 +352,25 @@ def e7_e8(rep, src):
             continue
         cname, ccols, cq = ctes[0]["args"]
         where = "src/%s:%d" % (RSQL, ctes[0]["l"])
+        # the trailing query re-reads the node's own CTE: `SELECT * FROM <cte>`.  It may repeat an idempotent clause (LIMIT) but nothing that acts twice
+        inner = {id(m) for m in find(cq, "mcall")}
+        trail = [m for m in find(f.body, "mcall") if m["m"] == "query" and len(m["args"]) == len(QUERY_SLOTS) and "translator" in show(m["recv"], 0) and id(m) not in inner and m is not cq]
+        if len(trail) != 1:
+            rep.undecidable("E7", key + "@trailing", "expected one trailing translator.query(ctes, *, FROM <cte>, ..) after the CTE, found %d" % len(trail), f.where())
+        else:
+            targs = dict(zip(QUERY_SLOTS, trail[0]["args"]))
+            bad = []
+            empty = lambda e: show(e, 0).replace(" ", "") in ("None", "vec![]", "vec!()", "Vec::new()", "ast::GroupByExpr::Expressions(vec![])", "ast::GroupByExpr::Expressions(vec!())", "GroupByExpr::Expressions(vec![])")
+            for slot in ("selection", "group_by", "offset"):  # a repeated ORDER BY / LIMIT acts once; these three act twice
+                if not empty(targs[slot]):
+                    bad.append("%s = %s" % (slot, show(targs[slot], 60)))
+            if show(targs["projection"], 0).replace(" ", "") != "all()" and "Wildcard" not in show(targs["projection"], 0):
+                bad.append("projection = %s" % show(targs["projection"], 60))
+            if node not in {x["segs"][0] for x in walk(targs["from"]) if x["k"] == "path"}:
+                bad.append("FROM does not read the node's own CTE: %s" % show(targs["from"], 60))
+            rep.instance("E7", key + "@trailing", {"node": nm, "limit_repeated": not empty(targs["limit"]), "other_clauses": bad})
+            if bad:
+                rep.violation("E7", key + "@trailing", "the trailing `SELECT * FROM <cte>` of a %s applies a clause a second time (%s): OFFSET / WHERE / GROUP BY belong to the CTE only (a repeated LIMIT or ORDER BY acts once)" % (nm, "; ".join(bad)), "src/%s:%d" % (RSQL, trail[0]["l"]))
         list_ok[nm] = "schema" in comp_mentions(ccols, node)
         list_where[nm] = (show(ccols, 100), where)
         list_empty = show(ccols, 0).replace(" ", "") in ("vec![]", "vec!()", "Vec::new()", "vec!{}")
@@ -499,8 +518,19 @@ def e10(rep, src):
         return
     m, a = sites[0]
     g = a.get("guard")
-    gs = show(g, 0).replace(" ", "") if g is not None else ""
-    negative = g is not None and re.search(r"%s\.(get_key_value|get|contains_key)\(.*?\)\.(is_none|is_err)\(\)" % re.escape(cols), gs) or (g is not None and re.search(r"!%s\.(contains_key|get)" % re.escape(cols), gs))
+    def conjuncts(e):
+        while e is not None and e["k"] == "paren":
+            e = e["e"]
+        if e is not None and e["k"] == "binary" and e["op"].strip() == "&&":
+            return conjuncts(e["lhs"]) + conjuncts(e["rhs"])
+        return [e] if e is not None else []
+
+    # the guard must IMPLY `the name is not an input column`: that test is one of its top-level conjuncts (under `||` it guards nothing)
+    negative = False
+    for c in conjuncts(g):
+        cs = show(c, 0).replace(" ", "")
+        if re.fullmatch(r"%s\.(get_key_value|get|contains_key)\(.*?\)\.(is_none|is_err)\(\)" % re.escape(cols), cs) or re.fullmatch(r"!%s\.(contains_key)\(.*?\)" % re.escape(cols), cs) or re.fullmatch(r"!%s\.(get|get_key_value)\(.*?\)\.(is_some|is_ok)\(\)" % re.escape(cols), cs):
+            negative = True
     rep.instance("E10", key, {"input_columns": cols, "arm": show(a["pat"], 60), "guard": show(g, 160)})
     if not negative:
         rep.violation("E10", key, "the select alias replaces the GROUP BY column without checking that the name is not an input column (guard: %s)" % (show(g, 120) or "none"), "src/sql/relation.rs:%d" % a["l"])
@@ -951,6 +981,100 @@ def e18(rep, src):
             rep.violation("E18", key, "%s does not build the one-component identifier [name]: %s" % (key, show(f.body, 100)), f.where())
 
 
+def e20(rep, src):
+    """Join kinds and base-table names survive rendering and reading."""
+    rep.rule(
+        "E20",
+        "join kinds round trip: every arm of RelationToQueryTranslator::join_operator (trait default and overrides) renders `JoinOperator::K(on)` as `ast::JoinOperator::K(On(self.expr(on)))` "
+        "(Cross as CrossJoin), and the reader's try_from_join_operator_with_columns maps `ast::JoinOperator::K` back to `JoinOperator::K` - the same K on both sides of every arm",
+        floor=10,
+        necessary="a RIGHT JOIN rendered (or read) as a LEFT JOIN is valid SQL that keeps the other side's unmatched rows: the read-back relation has the nullability of its columns exchanged",
+    )
+    twin = {"Cross": "CrossJoin", "CrossJoin": "Cross"}
+
+    def variant_of(p):
+        if p is None:
+            return None
+        if p["k"] in ("tuplestruct", "path", "struct"):
+            segs = p["path"]["segs"] if p["k"] != "path" else p["segs"]
+            if len(segs) >= 2 and segs[-2] == "JoinOperator":
+                return segs[-1], (len(segs) >= 3 and segs[-3] == "ast")
+        return None
+
+    def built(e):
+        """(variant, is_ast, node) of the first JoinOperator constructor in an arm value"""
+        for x in walk(e):
+            if x["k"] == "call":
+                p = path_of(x["f"]) or ""
+                segs = p.split("::")
+                if len(segs) >= 2 and segs[-2] == "JoinOperator":
+                    return segs[-1], "ast" in segs[:-2], x
+            if x["k"] == "path" and len(x["segs"]) >= 2 and x["segs"][-2] == "JoinOperator":
+                return x["segs"][-1], "ast" in x["segs"][:-2], x
+        return None
+
+    sites = [(f, "render") for f in src.find_fns(name="join_operator") if f.file.startswith("dialect_translation/") and f.body and not f.test]
+    sites += [(f, "read") for f in src.find_fns(name="try_from_join_operator_with_columns", file="sql/relation.rs") if f.body]
+    if not any(k == "render" for _, k in sites) or not any(k == "read" for _, k in sites):
+        raise Anchor("join_operator (renderer) / try_from_join_operator_with_columns (reader) not found")
+    for f, side in sites:
+        ms = [m for m in find(f.body, "match")]
+        if not ms:
+            rep.undecidable("E20", "%s@match" % f.qual, "no match over the join operator", f.where())
+            continue
+        for a in ms[0]["arms"]:
+            pats = a["pat"]["cases"] if a["pat"]["k"] == "or" else [a["pat"]]
+            for pt in pats:
+                pv = variant_of(pt)
+                if pv is None:
+                    continue  # catch-all arms (todo!() for semi / anti joins: C18)
+                b = built(a["body"])
+                key = "%s@%s" % (f.qual, pv[0])
+                rep.instance("E20", key, {"side": side, "pattern": pv[0], "builds": b[0] if b else None})
+                if b is None:
+                    if "todo!" in show(a["body"], 0) or "unimplemented!" in show(a["body"], 0) or show(a["body"], 0).strip().startswith("Err"):
+                        continue
+                    rep.undecidable("E20", key, "the arm does not build a JoinOperator: %s" % show(a["body"], 80), "src/%s:%d" % (f.file, a["l"]))
+                    continue
+                if b[0] != pv[0] and twin.get(pv[0]) != b[0]:
+                    rep.violation("E20", key, "%s turns a %s join into a %s join" % ("the renderer" if side == "render" else "the reader", pv[0], b[0]), "src/%s:%d" % (f.file, a["l"]))
+                if side == "render" and pv[0] != "Cross":
+                    binds = list(pat_binds(pt))
+                    txt = show(b[2], 0).replace(" ", "")
+                    if not (binds and ("self.expr(%s)" % binds[0]) in txt and "JoinConstraint::On(" in txt):
+                        rep.violation("E20", key + "@on", "the ON condition of a %s join is not rendered as On(self.expr(<the node's condition>)): %s" % (pv[0], show(b[2], 90)), "src/%s:%d" % (f.file, a["l"]))
+
+
+def e21(rep, src):
+    rep.rule(
+        "E21",
+        "RelationToQueryTranslator::table_factor (trait default and overrides): a base table is referred to by its PATH (`self.identifier(table.path())`, one quoted identifier per component), every other node by its name",
+        floor=2,
+        necessary="a table registered under a schema rendered by its generated name (`my_schema_users`) designates a table that does not exist: the query is rejected by the engine and cannot be read back against the same catalog",
+    )
+    fs = [f for f in src.find_fns(name="table_factor") if f.file.startswith("dialect_translation/") and f.body and not f.test]
+    if not fs:
+        raise Anchor("RelationToQueryTranslator::table_factor not found")
+    for f in fs:
+        ms = [m for m in find(f.body, "match")]
+        key = f.qual
+        arms = ms[0]["arms"] if ms else []
+        tab = [a for a in arms if any(p["k"] == "tuplestruct" and p["path"]["segs"][-2:] == ["Relation", "Table"] for p in walk(a["pat"]))]
+        if len(tab) != 1:
+            rep.undecidable("E21", key, "no `Relation::Table(table)` arm in table_factor", f.where())
+            continue
+        a = tab[0]
+        bv = list(pat_binds(a["pat"]))
+        names = [fl["e"] for x in walk(a["body"]) if x["k"] == "struct" and x["path"]["segs"][-1] == "Table" for fl in x["fields"] if fl["name"] == "name" and fl.get("e") is not None]
+        t = show(names[0], 0).replace(" ", "") if names else ""
+        ok = bool(bv) and ("self.identifier(%s.path())" % bv[0]) in t and "ObjectName(" in t
+        rep.instance("E21", key + "@table", {"fn": f.qual, "table_name": show(names[0], 80) if names else None, "by_path": ok})
+        if not ok:
+            rep.violation("E21", key + "@table", "a base table is not referred to by `self.identifier(<table>.path())`: %s" % (show(names[0], 80) if names else "no name field"), "src/%s:%d" % (f.file, a["l"]))
+        rest = [x for x in arms if x is not a]
+        rep.instance("E21", key + "@other", {"arms": len(rest)}, nontrivial=False)
+
+
 def e19(rep, src):
     """ORDER BY direction survives parse -> render -> parse."""
     rep.rule(
@@ -1065,5 +1189,7 @@ def run(rep):
     e17(rep, src)
     e18(rep, src)
     e19(rep, src)
+    e20(rep, src)
+    e21(rep, src)
     rep.assume("sqlparser 0.46 parses NAME(args) into ast::Expr::Function with that name, except the keyword functions listed in KEYWORD_FUNCTIONS")
     rep.assume("operators are rendered through same-named ast::BinaryOperator / UnaryOperator variants (read: function_match_constructor!)")
